@@ -282,7 +282,7 @@ def parse_item(item, added_key, added, drawn, rm=None):
     elif t == "drop_detection_item":
         ts = ("drop",)
     elif t == "add_condition":
-        name = item.get("name") or drawn.get(added_key)
+        name = item.get("name") or drawn.get(added_key) or "_cond_not_drawn"   # not drawn: the implementation did not apply the item
         ts = ("addcond", name, added.get(added_key), bool(item.get("negated", False)))
     elif t == "set_value":
         v, ft = item["value"], item.get("force_type")
@@ -1215,10 +1215,16 @@ def collect_added(items, prefix, out, ls=None):
             out[key] = template_subst(it["conditions"], ls[key]) if it.get("template") else it["conditions"]
 
 
-def finish_case(rule, expr, items, identity):
+def has_template(items):
+    return any((it["type"] == "add_condition" and it.get("template")) or (it["type"] == "nest" and has_template(it["items"])) for it in items)
+
+
+def finish_case(rule, expr, items, identity, pre=None):
     assign_ids(items)
     case = {"rule": rule, "expr": expr, "pipeline": {"name": "p", "priority": 10, "vars": VARS, "transformations": items},
             "identity": identity}
+    if pre:
+        case["pre"] = pre       # rule documents the same pipeline object processed before this rule
     added = {}
     collect_added(items, "", added, track(case)["ls"])
     case["added"] = added
@@ -1592,7 +1598,14 @@ def gen_tr(tier, rng):
             nest = {"type": "nest", "items": inner}
             nest.update(gen_scope(rng) if rng.random() < 0.5 else {})
             items = [nest]
-        out.append(finish_case(rule, expr, items, identity))
+        pre = None
+        if (has_template(items) and rng.random() < 0.6) or rng.random() < 0.08:
+            # the pipeline object has already processed another rule (same detections, another log source / other fields)
+            other = dict(rule, logsource=dict(rng.choice([l for l in LOGSOURCES if l != rule["logsource"]])))
+            if rng.random() < 0.5:
+                other["fields"] = ["zz", "f"]
+            pre = [other] if rng.random() < 0.8 else [other, dict(other, logsource={"category": "third", "product": "p3", "service": "s3"})]
+        out.append(finish_case(rule, expr, items, identity, pre))
     return out + hostile_cases()
 
 
@@ -1600,6 +1613,9 @@ def hostile_cases():
     def mk(dets, expr, items, identity=False):
         rule = {"title": "t", "logsource": {"category": "c"}, "detection": dict(dets, condition=spell(expr))}
         return finish_case(rule, expr, items, identity)
+    def mkp(ls, pre_ls, dets, expr, items):
+        rule = {"title": "t", "logsource": ls, "detection": dict(dets, condition=spell(expr))}
+        return finish_case(rule, expr, items, False, [dict(rule, logsource=l) for l in pre_ls])
     def mkl(ls, dets, expr, items):
         rule = {"title": "t", "logsource": ls, "fields": ["f", "Image"], "detection": dict(dets, condition=spell(expr))}
         return finish_case(rule, expr, items, False)
@@ -1673,6 +1689,17 @@ def hostile_cases():
            [{"id": "M", "type": "field_name_mapping", "mapping": {NULLKEY: "msg"}},
             {"type": "replace_string", "regex": "^", "replacement": "pre_",
              "detection_item_conditions": [{"type": "processing_item_applied", "processing_item_id": "M"}]}]),
+        # several rules through one pipeline object: the templates of add_condition are filled per rule
+        mkp({"category": "process_creation", "product": "windows"}, [{"category": "network", "product": "linux", "service": "auditd"}],
+            {"sel": {"Image": "a"}}, sel, [{"type": "add_condition", "template": True, "conditions": {"source": "$category/$service", "os": "$product"}}]),
+        mkp({"product": "windows", "service": "sysmon"}, [{"category": "c"}, {"category": "x", "product": "y", "service": "z"}],
+            {"sel": {"Image": "a"}}, ["not", sel],
+            [{"type": "add_condition", "template": True, "negated": True, "conditions": {"idx": ["$product-$service", "lit"], "n": 1}},
+             {"type": "field_name_prefix", "prefix": "w.", "rule_conditions": [{"type": "logsource", "product": "windows"}]}]),
+        mkp({"category": "c", "product": "linux"}, [{"category": "process_creation", "product": "windows"}],
+            {"sel": {"f": "a"}}, sel,
+            [{"type": "nest", "items": [{"type": "change_logsource", "service": "sysmon"},
+                                        {"type": "add_condition", "template": True, "conditions": {"source": "${category}:$service"}}]}]),
         # marks survive the copies: A marks f and g, f is mapped one-to-many, C applies where A was applied
         mk({"sel": {"f": "foo", "g": "bar"}}, sel, [{"id": "A", "type": "case", "method": "upper"},
                                                     {"id": "B", "type": "field_name_mapping", "mapping": {"f": ["x", "y"]}},
